@@ -1,5 +1,7 @@
 import QuicProofs.Bridge.AckRanges
 import QuicProofs.Bridge.VarInt
+import QuicProofs.Lemmas.AckRanges
+import QuicProofs.Lemmas.IntervalSet
 import QuicProofs.Props.C05VarInt
 import QuicProofs.Props.C16AckRanges
 import QuicProofs.Props.C16IntervalSet
